@@ -12,7 +12,7 @@ PROP = {
     ],
     "lanes": [
         native("c07"),
-        miri("c07", seeds_q=6, seeds_t=200, scale=100, args={"histories": {"quick": 3, "thorough": 3}}),
+        miri("c07", seeds_q=8, seeds_t=320, scale=100, args={"histories": {"quick": 4, "thorough": 6}}),
         # all three receiver flavours: tokio was quiet under TSan (-Zbuild-std) in this sandbox
         san("tsan", "c07", scale=10),
     ],
